@@ -169,6 +169,16 @@ Fixpoint link_order_tags (seen : list path) (es : list entry) : list string :=
        end) ++ link_order_tags (e_path e :: seen) r
   end.
 
+(* a link entry whose Linkname is the path of a SYMLINK of the built tree while the
+   name it is written for is not that symlink in the built tree: extracting makes
+   the name a second name of the symlink (finding C06-F5) *)
+Definition link_names_symlink (t : forest) (o : entry) : bool :=
+  match e_kind o, lookup t (split_slash (e_link o)), lookup t (e_path o) with
+  | KLink, Some (File _ (LSym _) _), Some (File _ (LSym _) _) => false
+  | KLink, Some (File _ (LSym _) _), _ => true
+  | _, _, _ => false
+  end.
+
 Definition diagnose (us gs : list (Z * string)) (t : forest) (es : list entry) : list string :=
   let xs := map (expect_fix t) (expected_entries t) in
   flat_map (fun x => match find_entry (e_path x) es with
@@ -178,6 +188,7 @@ Definition diagnose (us gs : list (Z * string)) (t : forest) (es : list entry) :
   flat_map (fun o => match find_entry (e_path o) xs with
                      | None => ["viol:extra-path"] | Some _ => [] end) es ++
   link_order_tags [] es ++
+  tag_if (existsb (link_names_symlink t) es) "viol:hardlink-names-symlink" ++
   tag_if (negb (sortedb (map e_path es))) "viol:order" ++
   tag_if (negb (forallb (fun e => name_okb us (e_uid e) (e_uname e)) es)) "viol:uname" ++
   tag_if (negb (forallb (fun e => name_okb gs (e_gid e) (e_gname e)) es)) "viol:gname".
@@ -228,3 +239,52 @@ Fixpoint whole_seconds (t : tree) : bool :=
   end.
 Definition whole_seconds_forest (f : forest) : bool :=
   forallb (fun nc : string * tree => whole_seconds (snd nc)) f.
+
+(* ---- the envelope WITH recorded hard links (c06_extract_walk_links) -----------
+   [hh p] = the tarfs node at p has a recorded tar header for the name p
+   (node.hardlinks, filled by WriteHeader(TypeLink)).  A node [File m l (Some q)]
+   at path p — "p is an additional name of the inode first known as q" — is inside
+   the envelope when
+     - its name was recorded with a header ([hh p]; without one walkFS writes an
+       independent copy: finding C06-F1),
+     - its target path q sorts before p in the walk order ([path_ltb q p]; otherwise
+       the link entry precedes its target and cannot be extracted: finding C06-F2),
+     - q is a path a Linkname can carry (components non-empty, without '/'),
+     - the node at q in the SAME tree is a non-directory with the same metadata and
+       content as the node at p (that is what sharing an inode means here; tarfs
+       link() resolves a final symlink in q, so a link recorded against a symlink
+       shares the node of the symlink's target instead: finding C06-F5),
+     - the shared node is not a symlink with a non-empty target (walkFS re-types
+       such an entry as TypeSymlink with the hard-link path as target; no state
+       reachable through tarfs has a recorded link sharing a symlink node).
+   Names that are not additional links obey the conditions of [wf_tree]. *)
+Fixpoint no_slash (s : string) : bool :=
+  match s with EmptyString => true | String c r => negb (Ascii.eqb c "/"%char) && no_slash r end.
+Definition comp_ok (s : string) : bool := negb (String.eqb s "") && no_slash s.
+
+Definition link_ok (hh : path -> bool) (root : forest) (p : path) (m : meta) (l : leaf) (q : path) : bool :=
+  hh p && path_ltb q p && forallb comp_ok q &&
+  match l with LSym t => String.eqb t "" | _ => true end &&
+  match lookup root q with
+  | Some (File m' l' _) => meta_eqb m m' && leaf_eqb l l'
+  | _ => false
+  end.
+
+Definition node_ok (hh : path -> bool) (root : forest) (p : path) (t : tree) : bool :=
+  match t with
+  | Dir _ _ => true
+  | File m l None =>
+      match l with LReg _ _ => true | _ => match m_xattrs m with [] => true | _ => false end end
+  | File m l (Some q) => link_ok hh root p m l q
+  end.
+
+Fixpoint wfl_tree (hh : path -> bool) (root : forest) (p : path) (t : tree) {struct t} : bool :=
+  node_ok hh root p t &&
+  match t with
+  | File _ _ _ => true
+  | Dir m cs =>
+      nodupb (map fst cs) &&
+      forallb (fun nc : string * tree => wfl_tree hh root (p ++ [fst nc]) (snd nc)) cs
+  end.
+Definition wfl_forest (hh : path -> bool) (f : forest) : bool :=
+  nodupb (map fst f) && forallb (fun nc : string * tree => wfl_tree hh f [fst nc] (snd nc)) f.
